@@ -363,6 +363,66 @@ Lemma expr_adjoint_sound_flat (e : oexpr) : wf leaf_ok e ->
   dom (adjoint e) = ran e /\ ran (adjoint e) = dom e.
 Proof. intros Hw. destruct (expr_adjoint_sound_all e Hw) as ((H1 & H2 & H3) & H4). auto. Qed.
 
+(* ---- the boolean structural check [wfb] (evaluated on every correspondence case) gives [wf] ---- *)
+Fixpoint leaves (e : oexpr) : list leaf :=
+  match e with
+  | Leaf l => [l]
+  | Sum a b | Comp a b => leaves a ++ leaves b
+  | LScal _ a | RScal a _ | LVec _ a | RVec a _ | FLVec _ _ a => leaves a
+  | Reduce l | Bcast l | Diag l => flat_map leaves l
+  end.
+Lemma veqb_eq (x y : vec) : veqb x y = true -> x = y.
+Proof.
+  revert y; induction x as [|a x IH]; intros [|b y] Hh; cbn in Hh; try discriminate; [reflexivity|].
+  apply andb_true_iff in Hh; destruct Hh as [H1 H2]. f_equal; [apply (ck_eqb T OK); assumption | apply IH; assumption].
+Qed.
+Lemma wf_all_of_wfb P (l : list oexpr) :
+  Forall (fun e => wfb e = true -> Forall P (leaves e) -> wf P e) l ->
+  forallb wfb l = true -> Forall P (flat_map leaves l) -> wf_all P l.
+Proof.
+  induction 1 as [|c m Hc _ IHm]; intros Hb Hl; [exact I|].
+  cbn [forallb] in Hb. apply andb_true_iff in Hb; destruct Hb as [B1 B2].
+  cbn [flat_map] in Hl. apply Forall_app in Hl; destruct Hl as [L1 L2].
+  split; [apply Hc; assumption | apply IHm; assumption].
+Qed.
+Lemma forallb_Forall_veqb (f : oexpr -> vec) (r : vec) (l : list oexpr) :
+  forallb (fun a => veqb (f a) r) l = true -> Forall (fun a => f a = r) l.
+Proof.
+  induction l as [|a l IH]; intros Hb; [constructor|]. cbn [forallb] in Hb.
+  apply andb_true_iff in Hb; destruct Hb as [B1 B2]. constructor; [apply veqb_eq; assumption | apply IH; assumption].
+Qed.
+Theorem wf_of_wfb P (e : oexpr) : wfb e = true -> Forall P (leaves e) -> wf P e.
+Proof.
+  induction e as [l|a b IHa IHb|a b IHa IHb|s a IHa|a s IHa|v a IHa|a v IHa|wv v a IHa|l IHl|l IHl|l IHl]
+    using oexpr_ind'; cbn [wfb leaves wf]; intros Hb Hl.
+  - exact (Forall_inv Hl).
+  - apply Forall_app in Hl; destruct Hl as [L1 L2].
+    repeat (apply andb_true_iff in Hb; destruct Hb as [Hb ?]).
+    repeat split; auto using veqb_eq.
+  - apply Forall_app in Hl; destruct Hl as [L1 L2].
+    repeat (apply andb_true_iff in Hb; destruct Hb as [Hb ?]).
+    repeat split; auto using veqb_eq.
+  - auto.
+  - auto.
+  - apply andb_true_iff in Hb; destruct Hb as [B1 B2]. split; [auto | apply Nat.eqb_eq; assumption].
+  - apply andb_true_iff in Hb; destruct Hb as [B1 B2]. split; [auto | apply Nat.eqb_eq; assumption].
+  - repeat (apply andb_true_iff in Hb; destruct Hb as [Hb ?]).
+    repeat split; auto using veqb_eq. apply Nat.eqb_eq; assumption.
+  - repeat (apply andb_true_iff in Hb; destruct Hb as [Hb ?]).
+    split; [exact (wf_all_of_wfb P l IHl Hb Hl)|]. split.
+    + intros ->. discriminate.
+    + apply (forallb_Forall_veqb ran). assumption.
+  - repeat (apply andb_true_iff in Hb; destruct Hb as [Hb ?]).
+    split; [exact (wf_all_of_wfb P l IHl Hb Hl)|]. split.
+    + intros ->. discriminate.
+    + apply (forallb_Forall_veqb dom). assumption.
+  - exact (wf_all_of_wfb P l IHl Hb Hl).
+Qed.
+
+(* premises in the form the harness checks on every case: [wfb] + the leaves *)
+Corollary expr_adjoint_sound_checked (e : oexpr) : wfb e = true -> Forall leaf_ok (leaves e) -> sound e.
+Proof. intros; apply expr_adjoint_sound_all; apply wf_of_wfb; assumption. Qed.
+
 (* ---- the adjoint of a good tree is again a good tree ---- *)
 Definition leaf_good (l : leaf) : Prop := leaf_ok l /\ wf leaf_ok (leaf_adjoint l).
 
